@@ -44,14 +44,19 @@ pub fn run() {
                 Some(c) => {
                     let mut best = f64::MAX;
                     let mut names: Vec<(String, f64)> = vec![];
+                    // distances by the independent transcription of the Sharma-Wu-Dalal formula (sharma.rs)
+                    // on the Lab coordinates, not by the library's own colour-distance function
+                    let lc = c.to_lab();
                     for nc in pastel::named::NAMED_COLORS.iter() {
-                        let d = nc.color.distance_delta_e_ciede2000(&c);
+                        let ln = nc.color.to_lab();
+                        let d = crate::sharma::ciede2000([ln.l, ln.a, ln.b], [lc.l, lc.a, lc.b]);
                         names.push((nc.name.to_string(), d));
                         if d < best {
                             best = d;
                         }
                     }
-                    let within: Vec<String> = names.iter().filter(|(_, d)| *d <= best + 0.001).map(|(n, _)| n.clone()).collect();
+                    // 0.001 is the key resolution of the name lookup, another 0.001 the agreement C11 allows between the two formulas
+                    let within: Vec<String> = names.iter().filter(|(_, d)| *d <= best + 0.002).map(|(n, _)| n.clone()).collect();
                     let exact: Vec<String> = pastel::named::NAMED_COLORS.iter().filter(|nc| nc.color.to_rgba() == c.to_rgba()).map(|nc| nc.name.to_string()).collect();
                     format!("ok {} {} {}", crate::wire::f(best), within.join(","), if exact.is_empty() { "-".to_string() } else { exact.join(",") })
                 }
